@@ -3,7 +3,7 @@ import json
 import random
 
 from vlib import core, pipeline as P, diffrun
-from vgen import gen as G, gen2 as G2, emit as E
+from vgen import gen as G, gen2 as G2, emit as E, corpus
 
 LEVEL = 'exploration'
 
@@ -12,8 +12,31 @@ def sizes(ctx):
     return dict(programs=96, inputs=24) if ctx.tier == 'quick' else dict(programs=640, inputs=100)
 
 
+def has_f22_shape(prog):
+    """a negated / aggregated clause over a lattice whose lattice column is bound by value (finding F22)"""
+    from vgen.ast import Neg, Agg, AWild, AVar
+    for r in prog.rules:
+        for it in r.body:
+            if isinstance(it, (Neg, Agg)) and prog.rel(it.rel).is_lat:
+                last = it.args[-1]
+                if isinstance(last, AWild) or (isinstance(it, Agg) and isinstance(last, AVar) and last.name in it.bound):
+                    continue
+                return True
+    return False
+
+
 def gen_cases(ctx, n_programs, n_inputs):
     cases = []
+    # readers binding the lattice column of a finished lattice by value (the family that shows finding F22)
+    rng = random.Random(ctx.rng.getrandbits(48))
+    name, prog, input_rels, mk = corpus.lat_probe(rng)
+    vs = [E.Variant('ser', prog, 'ascent'), E.Variant('par', prog, 'ascent_par')]
+    case = P.Case('k_' + name, prog, vs, meta={'dom': 12, 'aggs': ['count', 'neg'], 'facts': {'known_shape': 'F22'}})
+    for ii in range(max(4, n_inputs // 3)):
+        rows = mk(rng)
+        for v in vs:
+            case.jobs.append(P.Job('%s_i%d_%s' % (case.name, ii, v.name), case, v, rows))
+    cases.append(case)
     while len(cases) < n_programs:
         rng = random.Random(ctx.rng.getrandbits(48))
         if len(cases) % 4 == 3:
@@ -43,7 +66,7 @@ def gen_cases(ctx, n_programs, n_inputs):
         kind = rng.choice(['ascent', 'ascent', 'ascent_par'])
         v = E.Variant('v0', prog, kind)
         aggs = sorted(set((i.agg if isinstance(i, Agg) else 'neg') for r in prog.rules for i in r.body if isinstance(i, (Neg, Agg))))
-        case = P.Case(name, prog, [v], meta={'dom': cfg.dom, 'aggs': aggs})
+        case = P.Case(name, prog, [v], meta={'dom': cfg.dom, 'aggs': aggs, 'facts': {'known_shape': 'F22' if has_f22_shape(prog) else None}})
         loadable = [r.name for r in prog.rels]
         for ii in range(n_inputs):
             targets = input_rels if rng.random() < 0.6 else loadable
